@@ -396,6 +396,11 @@ def poisson(rep, prog):
             if c.get("k") == "DeclRefExpr" and pol and c.get("t", "").replace("const ", "") == "bool":
                 flag = c["ref"]
         if flag is None:
+            # predicate form: the insertion is reached only if a local predicate over the candidate holds, and that predicate
+            # returns false as soon as one point of the neighbourhood (of the same grid) is closer than l_min
+            if _predicate_guard(prog, fn, fi, pl, lmin):
+                rep.ok("C13.poisson-min-distance", prog, fn, pl, "insertion reached only if the local predicate holds, which returns false when |p - candidate|^2 < l_min*l_min for any point of the neighbourhood of the same grid")
+                continue
             rep.violation("C13.poisson-min-distance", prog, fn, pl, "unguarded insertion", "place_object into the Poisson grid is not guarded by the acceptance flag")
             continue
         # the flag: initialised true; cleared inside a loop over get_neighborhood(...) under  d2 < lmin2
@@ -452,6 +457,55 @@ def poisson(rep, prog):
         else:
             rep.violation("C13.poisson-min-distance", prog, fn, pl, "insertion not guarded by the distance test",
                           "grid insertion at line %s is not guarded by an all-neighbours test against l_min^2 (%s): sample points closer than one minimum edge length can be accepted" % (pl.get("l"), why if not good else "flag not initialised to true"))
+
+
+def _predicate_guard(prog, fn, fi, pl, lmin):
+    for cond, pol in fi.guards(pl):
+        c = strip(cond)
+        while c.get("k") == "UnaryOperator" and c.get("op") == "!":
+            pol = not pol
+            c = strip(c["c"][0])
+        if not (pol and c.get("k") == "CXXOperatorCallExpr" and c.get("op") == "()" and len(c.get("c", [])) >= 3):
+            continue
+        o = strip(c["c"][1])
+        if o.get("k") != "DeclRefExpr":
+            continue
+        lam = None
+        for v in walk(fn["body"]):
+            if v.get("k") == "Var" and v.get("did") == o["ref"]["did"] and isinstance(v.get("init"), dict) and strip(v["init"]).get("k") == "LambdaExpr":
+                lam = strip(v["init"])
+        if lam is None or not lam.get("params"):
+            continue
+        cand = lam["params"][0]["did"]
+        # the candidate handed to the predicate is the object that is inserted
+        if render(strip(c["c"][2])).split("#")[0] != render(strip(call_args(pl)[0])).split("#")[0]:
+            continue
+        li = prog.index(fn)
+        rets = [r for r in walk(lam["body"], into_lambdas=False) if r.get("k") == "ReturnStmt" and isinstance(r.get("value"), dict)]
+        if not rets or strip(rets[-1]["value"]).get("v") is not True:
+            continue
+        for loop in [l for l in walk(lam["body"]) if l.get("k") == "CXXForRangeStmt"]:
+            rng = strip(loop["range"])
+            src = None
+            if rng.get("k") == "DeclRefExpr":
+                for v in walk(fn["body"]):
+                    if v.get("k") == "Var" and v.get("did") == rng["ref"]["did"] and isinstance(v.get("init"), dict):
+                        src = [x for x in walk(v["init"]) if x.get("k") == "CXXMemberCallExpr" and x.get("callee", "").endswith("::get_neighborhood")]
+            if not src or render(call_obj(src[0])) != render(call_obj(pl)):
+                continue
+            for r in walk(loop["body"]):
+                if r.get("k") == "ReturnStmt" and isinstance(r.get("value"), dict) and strip(r["value"]).get("v") is False:
+                    for gc, gp in li.guards(r, stop_at=loop):
+                        if not gp:
+                            continue
+                        g = strip(gc)
+                        if g.get("k") == "BinaryOperator" and g.get("op") in ("<", "<="):
+                            lhs, rhs = strip(g["c"][0]), strip(g["c"][1])
+                            sq = [y for y in walk(lhs) if y.get("k") == "CXXMemberCallExpr" and y.get("callee") == "vec3::squared_norm"]
+                            refs = {y["ref"]["did"] for y in walk(lhs) if y.get("k") == "DeclRefExpr"}
+                            if sq and _is_lmin_squared(fn, rhs, lmin) and loop["var"]["did"] in refs and cand in refs:
+                                return True
+    return False
 
 
 def _is_lmin_squared(fn, e, lmin_did):
